@@ -207,6 +207,8 @@ def check(run):
     from props import C04_proof
     C04_proof.prove(run)
     C04_proof.prove_compress_slice(run)
+    from props import C04_kernel
+    C04_kernel.prove(run)
     seeds = [run.seed] if run.tier == "quick" else [run.seed, run.seed + 1]
     ns = [1, 2, 3, 4] if run.tier == "quick" else [1, 2, 3, 4, 5]
     cases = [(name, n, s, run.tier) for name in ("spin", "spinqn", "spin2qn", "holstein", "multi") for n in ns for s in seeds
